@@ -391,8 +391,36 @@ def _const_tuple(e):
     return v if isinstance(v, tuple) else None
 
 
+def _scalar_passthrough(ctx, rc, F):
+    """A scalar keeps its exact value in the hashable form: a return that
+    is not a tagged tuple is the argument itself, never a conversion of it
+    (``float(value)`` merges integers above 2**53, ``str(value)`` merges 1
+    and '1'): the form is a cache key and must separate what JSON equality
+    separates."""
+    param = F.params[0]
+    conv = {'float', 'int', 'str', 'bool', 'repr', 'round', 'abs', 'hash'}
+    for r in ast.walk(F.node):
+        if not isinstance(r, ast.Return) or r.value is None:
+            continue
+        v = r.value
+        if isinstance(v, ast.Call) and isinstance(v.func, ast.Name) and \
+                v.func.id in conv and any(
+                    isinstance(x, ast.Name) and x.id == param
+                    for a in v.args for x in ast.walk(a)):
+            rc.violation(
+                'hashable-scalar-converted | ' + F.qualname,
+                '%s returns %s: a scalar must keep its exact value in the '
+                'hashable form (two different arguments would share one '
+                'cache key)' % (F.qualname, ast.unparse(v)[:40]),
+                ctx.prog.loc(F, r), key='scalar returns of ' + F.qualname)
+            return
+    rc.ok({'scalars': 'returned unconverted'},
+          key='scalar returns of ' + F.qualname)
+
+
 def r18_4(ctx, rc):
     F = _util(ctx, 'to_hashable')
+    _scalar_passthrough(ctx, rc, F)
     enc = {}
     from ..astpaths import cond_paths, class_eq_fact, isinstance_fact
     bool_rets = []
